@@ -33,6 +33,40 @@ def run(prop, tier, seed, replay=None):
     print(f"{prop}: {'FAIL' if rc2 else 'ok'}  expiry-during-scan scenarios {len(specs)}")
     if replay:
         return rc2
+    # ephemeral frames: never stored, yet handed to every follower subscribed when they are broadcast - the controlled
+    # schedules of the follow layer (writers with ephemeral appends racing a reader's subscription), judged by the follow
+    # LTS and its oracles; a finding that names an ephemeral frame of the scenario speaks about C09
+    from . import followcheck as K
+    fspecs = [F.gen_scenario(seed * 7919 + k) for k in range(60 if tier == "quick" else 600)]
+    fres = F.run_all(fspecs)
+    eph_bad = []
+    for r in fres:
+        res = r["res"]
+        eph = {x["ok"]["id"] for rs in res.get("writers", {}).values() for x in rs if "ok" in x and x["ok"].get("ttl") == "ephemeral"}
+        eph |= {x["ok"]["id"] for x in res.get("main_appends", []) if "ok" in x and x["ok"].get("ttl") == "ephemeral"}
+        for it in r["fails"] + r["diffs"]:
+            if K.relevant(it) & {"C02", "C03"} and any(i in json.dumps(it) for i in eph):
+                eph_bad.append((r, it))
+                break
+    if len({r["spec"]["name"] for r, _ in eph_bad}) == 1:           # a lone finding is confirmed by re-execution (see followcheck)
+        r0, _ = eph_bad[0]
+        again = False
+        for _ in range(4):
+            rr = F.run_all([r0["spec"]], jobs=1)[0]
+            if any(K.relevant(it) & {"C02", "C03"} for it in rr["fails"] + rr["diffs"]):
+                again = True
+                break
+        if not again:
+            eph_bad = []
+    rc3 = 0
+    if eph_bad:
+        r0, it0 = eph_bad[0]
+        path = C.write_replay(prop, {"property": prop, "tier": tier, "seed": seed, "layer": "follow", "case": r0["spec"], "findings": [it0],
+                                     "impl": {"log": r0["res"].get("log"), "readers": r0["res"].get("readers")}})
+        print(f"VIOLATION property={prop} replay={path}")
+        rc3 = 1
+    print(f"{prop}: {'FAIL' if rc3 else 'ok'}  ephemeral frames under controlled schedules: scenarios {len(fspecs)}")
+    rc2 = rc2 or rc3
     p = os.path.join(C.VERIF, "evidence", prop + ".json")
     ev = json.load(open(p))
     cov = ev["coverage"]
@@ -41,6 +75,10 @@ def run(prop, tier, seed, replay=None):
     cov["rule"] += (" || streaming read path: a reader parked (sync point hist.send) before its first delivery, the clock moved past the expiry of "
                     "time:N frames further on in the history, the scan released: none of those frames may be delivered, every other frame must be")
     cov["expiry_during_scan"] = {"scenarios": len(specs), "failures": len(bad)}
-    ev["violations"] = ev.get("violations", 0) + len(bad)
+    cov["ephemeral_follow"] = {"scenarios": len(fspecs), "failures": len(eph_bad)}
+    cov["traces_validated_against_impl"] += len(fspecs)
+    cov["rule"] += (" || ephemeral frames: controlled follow schedules (followlayer) with ephemeral appends racing the reader's subscription; "
+                    "findings of the follow LTS / oracles that name an ephemeral frame")
+    ev["violations"] = ev.get("violations", 0) + len(bad) + len(eph_bad)
     json.dump(ev, open(p, "w"), indent=1, sort_keys=True)
     return 1 if (rc1 or rc2) else 0
